@@ -1,9 +1,9 @@
 SPECIFICATION GSpec
 CONSTANTS
-  File <- FilesA
-  FDataSeq <- DataA
-  FOther <- OtherA
-  FSplit <- SplitA
+  File <- FilesG
+  FDataSeq <- DataG
+  FOther <- OtherG
+  FSplit <- SplitG
   Caps <- GenCaps
 VIEW FocusView
 INVARIANT EmitAll
